@@ -51,6 +51,25 @@ TABLE = {
     'C20-m1': ([('c20_m1_demo_test.go', 'cmd/ogen')], GT + "-run TestCleanKeepsUserFiles ./cmd/ogen"),
     'C20-m2': ([('c20_m2_demo_test.go', 'cmd/ogen')], GT + "-run TestInvalid ./cmd/ogen"),
 }
+# second round (agents additionally told which mechanisms were already used): source directories differ
+SRCDIR = {}
+def round2(mid, prop, mn, files, cmd, *rest):
+    TABLE[mid] = (files, cmd) + rest
+    SRCDIR[mid] = '/tmp/mut/out2/%s/%s' % (prop, mn)
+round2('C03-m3', 'C03', 'm1', [('demo_test.go', 'internal/c03demo_m1')], GT + "-run TestRecursiveSchemasAreValidatedAtDepth ./internal/c03demo_m1/")
+round2('C03-m4', 'C03', 'm2', [('demo_test.go', 'internal/c03demo_m2')], GT + "-run TestExclusiveBoundsAreExact ./internal/c03demo_m2/")
+GEN = "go run ./cmd/ogen --target internal/mutdemo/api --package api --clean internal/mutdemo/spec.yaml >/dev/null 2>&1 && "
+round2('C01-m3', 'C01', 'm1', [('demo/spec.yaml', 'internal/mutdemo'), ('demo/demo_test.go', 'internal/mutdemo')], GEN + GT + "./internal/mutdemo/ -run TestDemo -v")
+round2('C01-m4', 'C01', 'm2', [('demo/spec.yaml', 'internal/mutdemo'), ('demo/demo_test.go', 'internal/mutdemo')], GEN + GT + "./internal/mutdemo/ -run TestDemo -v")
+round2('C04-m3', 'C04', 'm1', [('c04_m1_demo_test.go', '.')], GT + "-run TestC04M1Demo .")
+round2('C04-m4', 'C04', 'm2', [('c04_m2_demo_test.go', '.')], GT + "-run TestC04M2Demo .")
+round2('C10-m3', 'C10', 'm1', [('c10m1_demo_test.go', 'gen')], GT + "-run TestC10M1EarlierGenerationWithDisabledFeature -v ./gen/")
+round2('C10-m4', 'C10', 'm2', [('c10m2_demo_test.go', 'gen')], GT + "-run TestC10M2SameOutputForAnyCPUCount -v ./gen/")
+round2('C17-m3', 'C17', 'm1', [('c17m1_demo_test.go', 'internal/c17m1')], GT + "./internal/c17m1/ -run TestAliasedAndExpandedSpellingsAgree -v")
+round2('C17-m4', 'C17', 'm2', [('c17m2_demo_test.go', 'internal/c17m2')], GT + "./internal/c17m2/ -run TestAliasedAndExpandedSpellingsAgree -v")
+round2('C19-m3', 'C19', 'm1', [('c19_m1_demo_test.go', 'internal/integration')], "go test -race -vet=off -count=1 -run TestC19M1SharedPartHeader ./internal/integration/")
+round2('C19-m4', 'C19', 'm2', [('c19_m2_demo_test.go', 'internal/integration')], "go test -race -vet=off -count=1 -run TestC19M2SharedServerURLOverride ./internal/integration/")
+# round2-entries
 TABLE.update(json.load(open('/verif/tools/seeded_extra.json')) if os.path.exists('/verif/tools/seeded_extra.json') else {})
 
 
@@ -81,7 +100,7 @@ def main(ids):
         files, cmd = ent[0], ent[1]
         patchname = ent[2] if len(ent) > 2 else 'patch.diff'
         prop, mn = mid.split('-')
-        src = os.path.join(SRC, prop, mn)
+        src = SRCDIR.get(mid) or os.path.join(SRC, prop, mn)
         dst = os.path.join(DST, mid)
         os.makedirs(os.path.join(dst, 'demo'), exist_ok=True)
         patch = open(os.path.join(src, patchname)).read()
@@ -106,7 +125,7 @@ def main(ids):
             'patch': 'patch.diff (source part only; regenerated fixtures are re-created with tools/regen_fixtures.sh when the patch touches templates)' if so != patch else 'patch.diff',
             'patch_touches_generated_fixtures': so != patch,
             'demonstration': {'files': demo, 'run_in_worktree': cmd, 'expect': 'fails with the change, passes without'},
-            'origin': 'written by a sub-agent that saw only the property text and a scratch worktree of /repo',
+            'origin': 'written by a sub-agent that saw only the property text and a scratch worktree of /repo' + (' (second round: also one line per earlier change of this property, to force a different mechanism)' if mid in SRCDIR else ''),
         })
         if verbatim:
             meta['apply_verbatim'] = True
